@@ -53,7 +53,7 @@ fn coq_out(f: &Function, g: &Function, it: &mut Interner) -> (String, usize) {
 
 fn gen_case(seed: u64, i: u64) -> Case {
     let mut r = Rng::for_case(seed, i);
-    let fc = gen_flow_function(&mut r, &FlowOpts { intrinsics_pct: 45, branches_pct: 30, unreachable_pct: 40 });
+    let fc = gen_flow_function(&mut r, &FlowOpts { intrinsics_pct: 45, branches_pct: 30, unreachable_pct: 15, mixed_width_pct: 0 });
     let f = &fc.function;
     let mut it = Interner::new();
     let fcoq = coq_function(f, &mut it);
